@@ -111,12 +111,14 @@ def gen_case(rng, tier="quick"):
             # start at step 0 of the process tensors
             m["start_step"] = 0
         for _ in range(nops):
-            k = _pick(rng, ["compute", "get", "restart"],
-                      [5, 2, 3 if restart else 0])
+            k = _pick(rng, ["compute", "get", "restart", "peek"],
+                      [5, 2, 3 if restart else 0, 2])
             if k == "compute":
                 ops.append(["compute", rng.randrange(0, n + 1)])
             elif k == "get":
                 ops.append(["get"])
+            elif k == "peek":
+                ops.append(["peek", rng.randrange(0, 3)])
             else:
                 ops.append(["crash_restart"])
         ops.append(["compute", n])
@@ -494,6 +496,31 @@ def run_case(case, dec):
         elif kind == "get":
             check_state("get")
             log.ev("get")
+        elif kind == "peek":
+            # read-only queries between computes must not disturb the run,
+            # and must agree with the reference at the current step
+            if method != "pt_tebd" or obj.step is None:
+                continue
+            site = op[1] % m["sites"]
+            try:
+                rho = np.array(obj.get_current_density_matrix(site))
+            except Exception as e:  # noqa: BLE001
+                viol("query_raises", "pt_tebd/get_current_density_matrix",
+                     "get_current_density_matrix(%d) raised %s" % (
+                         site, type(e).__name__))
+                continue
+            got = _dyn_arrays(method, obj)
+            idx = offset + len(got[0]) - 1
+            keys = sorted(obj.get_results()["dynamics"].keys(), key=str)
+            track = [i for i, kk in enumerate(keys) if kk == site]
+            if track and idx <= n:
+                want = ref[1][track[0]][idx]
+                err = float(np.max(np.abs(rho - want)))
+                if not err <= tol:
+                    viol("history_changes_result", "pt_tebd/peek",
+                         "get_current_density_matrix(%d) at step %d differs "
+                         "from the reference by %.3g" % (site, idx, err))
+            log.ev("peek", site)
         elif kind == "crash_restart":
             if obj.step is None:
                 continue
